@@ -42,6 +42,46 @@ theorem none_is_not_any (a b : List Json) :
 theorem empty_subset (b : List Json) : extensionCustom "subset_of".toList [.arr [], .arr b] = .bool true := by
   simpa using subset_of_spec [] b
 
+/-- the property's wording, as propositions: membership is "some element of L equals x" -/
+theorem mem_iff (x : Json) (l : List Json) : mem x l = true ↔ ∃ y ∈ l, y.beq x = true := by
+  simp [mem, List.any_eq_true]
+theorem in_iff (x : Json) (l : List Json) :
+    extensionCustom "in".toList [x, .arr l] = .bool true ↔ ∃ y ∈ l, y.beq x = true := by
+  rw [in_spec, ← mem_iff]; simp
+theorem any_of_iff (a b : List Json) :
+    extensionCustom "any_of".toList [.arr a, .arr b] = .bool true ↔ ∃ x ∈ a, ∃ y ∈ b, y.beq x = true := by
+  rw [any_of_spec]; simp [List.any_eq_true, mem_iff]
+theorem none_of_iff (a b : List Json) :
+    extensionCustom "none_of".toList [.arr a, .arr b] = .bool true ↔ ¬ ∃ x ∈ a, ∃ y ∈ b, y.beq x = true := by
+  rw [none_of_spec, none_is_not_any]; simp [mem, List.any_eq_true]
+theorem subset_of_iff (a b : List Json) :
+    extensionCustom "subset_of".toList [.arr a, .arr b] = .bool true ↔ ∀ x ∈ a, ∃ y ∈ b, y.beq x = true := by
+  rw [subset_of_spec]; simp [List.all_eq_true, mem_iff]
+
+/-- arrays are read as SETS: the answer of `subset_of` depends only on which elements occur in A and in B, not on how often or in
+which order (so an array with repeated elements that is longer than B can still be a subset of it) -/
+theorem subset_of_set_semantics (a a' b b' : List Json) (ha : ∀ x, x ∈ a ↔ x ∈ a') (hb : ∀ y, y ∈ b ↔ y ∈ b') :
+    extensionCustom "subset_of".toList [.arr a, .arr b] = extensionCustom "subset_of".toList [.arr a', .arr b'] := by
+  have key : (extensionCustom "subset_of".toList [.arr a, .arr b] = .bool true) ↔
+      (extensionCustom "subset_of".toList [.arr a', .arr b'] = .bool true) := by
+    rw [subset_of_iff, subset_of_iff]
+    constructor
+    · intro h x hx; obtain ⟨y, hy, e⟩ := h x ((ha x).mpr hx); exact ⟨y, (hb y).mp hy, e⟩
+    · intro h x hx; obtain ⟨y, hy, e⟩ := h x ((ha x).mp hx); exact ⟨y, (hb y).mpr hy, e⟩
+  rw [subset_of_spec, subset_of_spec] at *
+  cases h1 : (a.all fun x => mem x b) <;> cases h2 : (a'.all fun x => mem x b') <;> simp_all
+theorem any_of_set_semantics (a a' b b' : List Json) (ha : ∀ x, x ∈ a ↔ x ∈ a') (hb : ∀ y, y ∈ b ↔ y ∈ b') :
+    extensionCustom "any_of".toList [.arr a, .arr b] = extensionCustom "any_of".toList [.arr a', .arr b'] := by
+  have key : (extensionCustom "any_of".toList [.arr a, .arr b] = .bool true) ↔
+      (extensionCustom "any_of".toList [.arr a', .arr b'] = .bool true) := by
+    rw [any_of_iff, any_of_iff]
+    constructor
+    · rintro ⟨x, hx, y, hy, e⟩; exact ⟨x, (ha x).mp hx, y, (hb y).mp hy, e⟩
+    · rintro ⟨x, hx, y, hy, e⟩; exact ⟨x, (ha x).mpr hx, y, (hb y).mpr hy, e⟩
+  rw [any_of_spec, any_of_spec] at *
+  cases h1 : (a.any fun x => mem x b) <;> cases h2 : (a'.any fun x => mem x b') <;> simp_all
+/-- a longer array with repeated elements inside a shorter one -/
+example : extensionCustom "subset_of".toList [.arr [.null, .null, .bool true, .null], .arr [.bool true, .null]] = .bool true := by rw [subset_of_spec]; rfl
 /-- a non-array where an array is required gives `null`, which a test reads as false -/
 theorem in_non_array (x y : Json) (h : asArr y = none) : extensionCustom "in".toList [x, y] = .null := by
   simp [extensionCustom, h]
